@@ -321,8 +321,16 @@ OptRRs(rrs) == SelectSeq(rrs, LAMBDA r : r.rd.k = "OPT")
 
 Bit(x, n) == (x \div n) % 2
 
+(* Message size.  A message travels in a UDP datagram or behind the 16-bit  *)
+(* length field of RFC 1035 4.2.2 (TCP), so a DNS message has at most      *)
+(* MaxMsgLen = 65535 octets: a message of exactly 65535 octets is legal    *)
+(* (and is the largest that Encode / the writer may produce), a byte       *)
+(* string of 65536 octets or more is not a DNS message at all.             *)
+MaxMsgLen == 65535
+
 DecodeSel(b, sel) ==
   IF Len(b) < 12 THEN [k |-> "Malformed", why |-> <<"header.truncated">>]
+  ELSE IF Len(b) > MaxMsgLen THEN [k |-> "Malformed", why |-> <<"message.toolong">>]
   ELSE
     LET f1 == b[3]
         f2 == b[4]
